@@ -56,6 +56,10 @@ type scripted struct {
 	testproto.UnimplementedTestApiServer
 	calls  sync.Map
 	nextID atomic.Int64
+	// anon: the script of the one call in progress whose caller's context carries no outgoing metadata at all
+	// (so no script-id can travel). Calls are run one at a time; only scripts without cancel / deadline use it,
+	// so no late handler of an earlier call can pick up a later call's script.
+	anon atomic.Pointer[call]
 }
 
 func (s *scripted) register(c *call) string {
@@ -67,16 +71,29 @@ func (s *scripted) register(c *call) string {
 func (s *scripted) lookup(ctx context.Context) (*call, error) {
 	md, _ := metadata.FromIncomingContext(ctx)
 	ids := md.Get("script-id")
-	if len(ids) != 1 {
+	var c *call
+	switch {
+	case len(ids) == 1:
+		v, ok := s.calls.Load(ids[0])
+		if !ok {
+			return nil, status.Error(codes.FailedPrecondition, "unknown script-id")
+		}
+		c = v.(*call)
+	case len(ids) == 0 && s.anon.Load() != nil:
+		c = s.anon.Load()
+	default:
 		return nil, status.Error(codes.FailedPrecondition, "no script-id")
 	}
-	v, ok := s.calls.Load(ids[0])
-	if !ok {
-		return nil, status.Error(codes.FailedPrecondition, "unknown script-id")
-	}
-	c := v.(*call)
 	c.entered.Store(true)
+	// what the handler sees of its context: the request metadata, whether there is a deadline, and the
+	// outgoing metadata of its own context (what a downstream call made with this context would transmit)
 	c.logf("in" + canonMD(md))
+	if _, ok := ctx.Deadline(); ok {
+		c.logf("dl")
+	}
+	if omd, _ := metadata.FromOutgoingContext(ctx); canonMD(omd) != "{}" {
+		c.logf("o" + canonMD(omd))
+	}
 	return c, nil
 }
 
@@ -115,6 +132,13 @@ func (c *call) run(io_ sio) error {
 		switch op.K {
 		case 'H':
 			if err := io_.setHeader(toMD(op.MD)); err != nil {
+				c.logf("Herr")
+			}
+		case 'E':
+			// the request metadata as the handler's context gives it NOW (the client may have changed its own
+			// outgoing metadata map since it opened the call: that must not show here)
+			now, _ := metadata.FromIncomingContext(ctx)
+			if err := io_.setHeader(userMD(now)); err != nil {
 				c.logf("Herr")
 			}
 		case 'S':
